@@ -88,15 +88,42 @@ class Proc:
 
     def run(self):
         t0 = time.time()
+        # own session / process group: whatever the job leaves behind (agents, traced drivers, PAM driver
+        # processes of a run that was cut short) is swept when the job ends or the driver is told to stop
+        p = subprocess.Popen(self.cmd, cwd=self.cwd, env=self.env, stdout=subprocess.PIPE, stderr=subprocess.STDOUT,
+                             errors="replace", text=True, start_new_session=True)
+        LIVE_GROUPS.add(p.pid)
         try:
-            p = subprocess.run(self.cmd, cwd=self.cwd, env=self.env, stdout=subprocess.PIPE,
-                               stderr=subprocess.STDOUT, timeout=self.timeout, errors="replace", text=True)
-            self.rc, self.out = p.returncode, p.stdout
-        except subprocess.TimeoutExpired as e:
+            out, _ = p.communicate(timeout=self.timeout)
+            self.rc, self.out = p.returncode, out
+        except subprocess.TimeoutExpired:
+            kill_group(p.pid)
+            try:
+                out, _ = p.communicate(timeout=30)
+            except Exception:
+                out = ""
             self.rc = -999
-            self.out = (e.stdout.decode("utf8", "replace") if isinstance(e.stdout, bytes) else (e.stdout or "")) + "\nDRIVER-TIMEOUT"
+            self.out = (out or "") + "\nDRIVER-TIMEOUT"
+        kill_group(p.pid)
+        LIVE_GROUPS.discard(p.pid)
         self.wall = time.time() - t0
         return self
+
+
+LIVE_GROUPS = set()
+
+
+def kill_group(pgid):
+    try:
+        os.killpg(pgid, signal.SIGKILL)
+    except (ProcessLookupError, PermissionError):
+        pass
+
+
+def _on_term(signum, frame):
+    for g in list(LIVE_GROUPS):
+        kill_group(g)
+    sys.exit(2)
 
 
 def rapid_seed(seed, jobidx, shard):
@@ -113,6 +140,8 @@ def load_known(pid):
 
 
 def main():
+    signal.signal(signal.SIGTERM, _on_term)
+    signal.signal(signal.SIGINT, _on_term)
     ap = argparse.ArgumentParser()
     ap.add_argument("pid")
     ap.add_argument("--tier", default=os.environ.get("VERIF_TIER", "quick"), choices=["quick", "thorough"])
